@@ -58,20 +58,39 @@ impl DbIter {
         Ok(Some(Batch { g: Some(g) }))
     }
 }
-pub struct Database { pub script: Option<Script> }
+pub struct Database { pub script: std::cell::RefCell<Option<Script>> }
+/// the handler clones the database handle before reading: the clone carries the script
+impl Clone for Database { fn clone(&self) -> Self { Database { script: std::cell::RefCell::new(self.script.borrow_mut().take()) } } }
+/// the actor, reduced to what the two handlers read: the database handle and the per-partition confirmed watermarks
+pub struct Wm { pub v: u64 }
+impl Wm { pub fn get(&self) -> u64 { self.v } }
+impl Clone for Wm { fn clone(&self) -> Self { Wm { v: self.v } } }
+pub struct Watermarks { pub pid: PartitionId, pub w: Option<Wm> }
+impl Watermarks { pub fn get(&self, p: &PartitionId) -> Option<&Wm> { if *p == self.pid { self.w.as_ref() } else { None } } }
+pub struct ClusterActor { pub database: Database, pub watermarks: Watermarks, pub replication_factor: u8, pub local_peer_id: u8 }
+/// event lookup environment: the request metadata, the forwarding step (recorded), the replica list (opaque)
+pub struct PeerSet; impl PeerSet { pub fn insert(&mut self, _p: u8) -> bool { true } }
+pub struct ReadRequestMetadata { pub tried_peers: PeerSet, pub not_found_count: u8 }
+pub struct ReplicaRefs;
+pub static mut FORWARDED: u32 = 0;
+impl ClusterActor { pub fn try_next_replica_for_not_found(_r: ReplicaRefs, _e: Uuid, _m: ReadRequestMetadata, _q: u8, _s: ReplySender<Result<Option<EventRecord>, ClusterError>>) { unsafe { FORWARDED += 1; } } }
 impl Database {
-    pub fn read_partition(mut self, _p: PartitionId, _from: u64, _d: IterDirection) -> Result<DbIter, DbError> { Ok(DbIter { s: self.script.take().unwrap() }) }
-    pub fn read_stream(mut self, _p: PartitionId, _s: StreamId, _from: u64, _d: IterDirection) -> Result<DbIter, DbError> { Ok(DbIter { s: self.script.take().unwrap() }) }
+    pub fn read_partition(mut self, _p: PartitionId, _from: u64, _d: IterDirection) -> Result<DbIter, DbError> { Ok(DbIter { s: self.script.borrow_mut().take().unwrap() }) }
+    pub fn read_event(self, _p: PartitionId, _e: Uuid) -> Result<Option<EventRecord>, DbError> { Ok(self.script.borrow_mut().take().and_then(|s| if s.n > 0 { Some(s.events[0].clone()) } else { None })) }
+    pub fn read_stream(mut self, _p: PartitionId, _s: StreamId, _from: u64, _d: IterDirection) -> Result<DbIter, DbError> { Ok(DbIter { s: self.script.borrow_mut().take().unwrap() }) }
 }
 
+impl ClusterActor {
 //@item partition_read_slice
 //@item stream_read_slice
+//@item local_read_slice
+}
 
 #[cfg(kani)]
 mod verif {
     use super::*;
 
-    fn ev(seq: u64, ver: u64) -> EventRecord { EventRecord { partition_sequence: seq, stream_version: ver } }
+    fn ev(seq: u64, ver: u64) -> EventRecord { EventRecord { partition_sequence: seq, stream_version: ver, confirmation_count: 3 } }
     /// up to 3 events with gapless ascending partition sequences from `start` (stream versions ascending from `v0`), in 1 or 2 batches
     fn any_script(start: u64, v0: u64) -> Script {
         let n: usize = kani::any();
@@ -90,10 +109,12 @@ mod verif {
         let end_sequence: Option<u64> = kani::any();
         kani::assume(start < u64::MAX - 8 && watermark < u64::MAX - 8);
         let mut slot: Option<Result<PartitionEvents, ClusterError>> = None;
-        let db = Database { script: Some(any_script(start, 0)) };
-        partition_read_slice(db, 3, start, end_sequence, watermark, count, ReplySender { slot: &mut slot });
+        // a partition without a watermark entry has watermark 0
+        let actor = ClusterActor { database: Database { script: std::cell::RefCell::new(Some(any_script(start, 0))) }, watermarks: Watermarks { pid: 3, w: if watermark == 0 && kani::any() { None } else { Some(Wm { v: watermark }) } }, replication_factor: 3, local_peer_id: 1 };
+        actor.partition_read_slice(3, start, end_sequence, count, ReplySender { slot: &mut slot });
         match slot {
             Some(Ok(pe)) => {
+                kani::cover!(pe.events.len() >= 2, "reachable: a reply with two events");
                 assert!(pe.events.len() as u64 <= count, "no more than `count` events");
                 let mut i = 0;
                 while i < pe.events.len() {
@@ -119,10 +140,11 @@ mod verif {
         let end_version: Option<u64> = kani::any();
         kani::assume(pstart < u64::MAX - 8 && v0 < u64::MAX - 8);
         let mut slot: Option<Result<StreamEvents, ClusterError>> = None;
-        let db = Database { script: Some(any_script(pstart, v0)) };
-        stream_read_slice(db, 3, StreamId(1), v0, end_version, watermark, count, ReplySender { slot: &mut slot });
+        let actor = ClusterActor { database: Database { script: std::cell::RefCell::new(Some(any_script(pstart, v0))) }, watermarks: Watermarks { pid: 3, w: if watermark == 0 && kani::any() { None } else { Some(Wm { v: watermark }) } }, replication_factor: 3, local_peer_id: 1 };
+        actor.stream_read_slice(3, StreamId(1), v0, end_version, count, ReplySender { slot: &mut slot });
         match slot {
             Some(Ok(se)) => {
+                kani::cover!(se.events.len() >= 2, "reachable: a reply with two events");
                 assert!(se.events.len() as u64 <= count);
                 let mut i = 0;
                 while i < se.events.len() {
@@ -133,6 +155,34 @@ mod verif {
             }
             Some(Err(_)) => { assert!(false); }
             None => { assert!(false, "exactly one reply is sent"); }
+        }
+    }
+
+    /// ReadEvent (local path): an event is revealed only if it is quorum-confirmed AND below the confirmed watermark
+    #[kani::proof]
+    #[kani::unwind(4)]
+    fn gate_event_lookup() {
+        let stored: bool = kani::any();
+        let e = EventRecord { partition_sequence: kani::any(), stream_version: kani::any(), confirmation_count: kani::any() };
+        kani::assume(e.partition_sequence < u64::MAX);
+        let rf: u8 = kani::any();
+        kani::assume(rf >= 1 && rf <= 12);
+        let quorum = rf / 2 + 1;
+        let wm: Option<u64> = kani::any();
+        let nf: u8 = kani::any();
+        kani::assume(nf < 200);
+        let script = Script { events: [e.clone(), e.clone(), e.clone()], n: if stored { 1 } else { 0 }, cut1: 1, pos: 0 };
+        let actor = ClusterActor { database: Database { script: std::cell::RefCell::new(Some(script)) }, watermarks: Watermarks { pid: 3, w: wm.map(|v| Wm { v }) }, replication_factor: rf, local_peer_id: 1 };
+        let mut slot: Option<Result<Option<EventRecord>, ClusterError>> = None;
+        unsafe { FORWARDED = 0; }
+        kani::cover!(stored && e.confirmation_count >= quorum && wm.is_some() && e.partition_sequence >= wm.unwrap(), "reachable: a quorum-confirmed event beyond the watermark");
+        actor.local_read_slice(3, Uuid(1), ReadRequestMetadata { tried_peers: PeerSet, not_found_count: nf }, ReplicaRefs, ReplySender { slot: &mut slot });
+        let visible = stored && e.confirmation_count >= quorum && e.partition_sequence < wm.unwrap_or(0);
+        match slot {
+            Some(Ok(Some(got))) => { assert!(visible && got.partition_sequence == e.partition_sequence && unsafe { FORWARDED } == 0, "an event is revealed only if it carries a quorum confirmation count AND lies below the confirmed watermark"); }
+            Some(Ok(None)) => { assert!(!visible && unsafe { FORWARDED } == 0 && nf + 1 >= quorum, "`not found` only once a quorum of replicas did not have it"); }
+            Some(Err(_)) => { assert!(false, "no error on a healthy store"); }
+            None => { assert!(!visible && unsafe { FORWARDED } == 1, "otherwise the request is forwarded to the next replica, once"); }
         }
     }
 }
